@@ -202,16 +202,14 @@ func ZZC14ParseText(text, expectValid string) {
 
 func splitLines(s string) []string {
 	var out []string
-	cur := ""
+	start := 0
 	for i := 0; i < len(s); i++ {
 		if s[i] == '\n' {
-			out = append(out, cur)
-			cur = ""
-			continue
+			out = append(out, s[start:i])
+			start = i + 1
 		}
-		cur += string(s[i])
 	}
-	return append(out, cur)
+	return append(out, s[start:])
 }
 
 func runeLen(s string) int {
